@@ -1210,13 +1210,22 @@ private:
          // reinitialize our list of currently active states with the ones defined in Derived::initial_state
          ::boost::mpl::for_each< seq_initial_states, ::boost::msm::wrap<mpl::placeholders::_1> >
                         (init_states(m_states));
-        // call on_entry on this SM
-        (static_cast<Derived*>(this))->on_entry(fsm_initial_event(),*this);
-        ::boost::mpl::for_each<initial_states, boost::msm::wrap<mpl::placeholders::_1> >
-            (call_init<fsm_initial_event>(fsm_initial_event(),this));
+        // block immediate handling of events raised by the entry behaviours (run-to-completion),
+        // as it is done when a state machine is entered as a submachine
+        m_event_processing = true;
+        {
+            event_processing_reset reset_if_thrown(m_event_processing);
+            // call on_entry on this SM
+            (static_cast<Derived*>(this))->on_entry(fsm_initial_event(),*this);
+            ::boost::mpl::for_each<initial_states, boost::msm::wrap<mpl::placeholders::_1> >
+                (call_init<fsm_initial_event>(fsm_initial_event(),this));
+        }
+        m_event_processing = false;
         // give a chance to handle an anonymous (eventless) transition
         handle_eventless_transitions_helper<library_sm> eventless_helper(this,true);
         eventless_helper.process_completion_event();
+        // handle the events which were generated and blocked in the entry calls
+        process_message_queue(this);
     }
 
     // start the state machine (calls entry of the initial state passing incomingEvent to on_entry's)
@@ -1226,13 +1235,22 @@ private:
         // reinitialize our list of currently active states with the ones defined in Derived::initial_state
         ::boost::mpl::for_each< seq_initial_states, ::boost::msm::wrap<mpl::placeholders::_1> >
                         (init_states(m_states));
-        // call on_entry on this SM
-        (static_cast<Derived*>(this))->on_entry(incomingEvent,*this);
-        ::boost::mpl::for_each<initial_states, boost::msm::wrap<mpl::placeholders::_1> >
-            (call_init<Event>(incomingEvent,this));
+        // block immediate handling of events raised by the entry behaviours (run-to-completion),
+        // as it is done when a state machine is entered as a submachine
+        m_event_processing = true;
+        {
+            event_processing_reset reset_if_thrown(m_event_processing);
+            // call on_entry on this SM
+            (static_cast<Derived*>(this))->on_entry(incomingEvent,*this);
+            ::boost::mpl::for_each<initial_states, boost::msm::wrap<mpl::placeholders::_1> >
+                (call_init<Event>(incomingEvent,this));
+        }
+        m_event_processing = false;
         // give a chance to handle an anonymous (eventless) transition
         handle_eventless_transitions_helper<library_sm> eventless_helper(this,true);
         eventless_helper.process_completion_event();
+        // handle the events which were generated and blocked in the entry calls
+        process_message_queue(this);
     }
 
     // stop the state machine (calls exit of the current state)
